@@ -21,7 +21,12 @@ Open Scope Z_scope.
 
 (* Main theorem: the property oracle (Model/Pll.v, C19_ok: written from the
    property text, the same function that is evaluated on the implementation's
-   observations) accepts the model's trace for EVERY history. *)
+   observations) accepts the model's trace for EVERY history.  The oracle
+   decides the whole call sequence: no call on the update that starts an epoch
+   and while the initial step is awaited; exactly one Step by the offset (or no
+   call, |offset| <= 1 ms) at the first update more than 2 s into the epoch
+   with weight > 3; afterwards never a Step, at most one Adjust per update with
+   sane arguments, and once tracking an Adjust at every later reading. *)
 Theorem C19_oracle_holds : forall us,
   nondecreasing us -> Forall upd_ok us -> C19_ok (pll_run pll_init us) = true.
 Proof. exact oracle_holds. Qed.
@@ -100,6 +105,35 @@ Theorem C19_prev_time : forall us, us <> [] -> nondecreasing us -> Forall upd_ok
   p_t (pll_final pll_init us) = last_now 0 us.
 Proof. exact history_prev_time. Qed.
 Print Assumptions C19_prev_time.
+
+(* The start-up sequence, call by call.  While awaiting the step (any state in
+   mode 1 of the current epoch): exactly one Step, by Inv(Inv(offset)) (= the
+   offset, C19_step_only_awaiting), at the first update that comes more than
+   2 s after t0 with weight > 3 if |offset| > 1 ms, and no call otherwise. *)
+Theorem C19_initial_step_taken : forall s u, in_i64 (u_off u) ->
+  p_epoch s = u_epoch u -> p_mode s = 1 -> p_t0 s <= u_now u ->
+  events (pll_do s u) =
+    if (step_wait_ns <? u_now u - p_t0 s) && fgt (u_weight u) c_3 && (step_min_ns <? Z.abs (u_off u))
+    then [EStep (inv (inv (u_off u)))] else [].
+Proof. exact await_step_calls. Qed.
+Print Assumptions C19_initial_step_taken.
+
+(* while awaiting the PLL there is no call at all *)
+Theorem C19_awaiting_pll_no_call : forall s u,
+  p_epoch s = u_epoch u -> p_mode s = 2 -> p_t0 s <= u_now u -> events (pll_do s u) = [].
+Proof. exact await_pll_calls. Qed.
+Print Assumptions C19_awaiting_pll_no_call.
+
+(* once tracking, in every admissible history: no call at an unchanged
+   reading, exactly one Adjust at a later reading *)
+Theorem C19_tracking_calls : forall us u,
+  nondecreasing (us ++ [u]) -> Forall upd_ok (us ++ [u]) ->
+  let s := pll_final pll_init us in
+  p_epoch s = u_epoch u -> p_mode s = 3 ->
+  (u_now u = p_t s -> events (pll_do s u) = []) /\
+  (p_t s < u_now u -> exists o d f, events (pll_do s u) = [EAdjust o d f]).
+Proof. exact history_track_calls. Qed.
+Print Assumptions C19_tracking_calls.
 
 (* float-level slew bound, for any finite p and up to 2^34 whole seconds:
    d*-500e-6 <= clamp d p <= d*500e-6 as float64 comparisons.  (_partial: stated
